@@ -395,7 +395,8 @@ func (ro *RedisOutput) rdbReplay(ctx context.Context, pipe <-chan *rdb.BinEntry)
 				return nil
 			}
 		case <-ctx.Done():
-			return nil
+			// stopped before the pipe was drained : the snapshot is not completely replayed
+			return ctx.Err()
 		}
 
 		filterOut := false
